@@ -137,6 +137,17 @@ struct entry
   }
 };
 
+// ---------------------------------------------------------------- information-only expectations
+// Expectations that are stricter than the property text, the function's documentation and its signature (implementation
+// details of internal functions, exception-safety levels nobody documents, behaviour towards facets that break the
+// codecvt contract, ...) are recorded in the evidence under counters["info:<sig>"] and are never a verdict.
+#define C01_INFO(cond, sig)                       \
+  do                                              \
+  {                                               \
+    if (!(cond))                                  \
+      ::vrt::count(std::string("info:") + (sig)); \
+  } while (0)
+
 // ---------------------------------------------------------------- exception oracle
 // Runs f; any escaping exception is the violation "exception:<fn>:<type>".
 template <class F> inline bool guarded(std::string const &fn, F &&f)
